@@ -41,7 +41,7 @@ Lemma replace_rdata_in l ttl rd : forall l' x,
 Proof.
   induction l as [|[t d] l IH]; intros l' x; cbn [replace_rdata]; [discriminate|].
   destruct (bytes_eqb d rd).
-  - intros [= <-] [<-|H]; [now right|left; now right].
+  - intros [= <-] [<-|H]; [left; now left|left; now right].
   - destruct (replace_rdata l ttl rd) as [r'|] eqn:E; [|discriminate].
     intros [= <-] [<-|H]; [left; now left|].
     destruct (IH _ _ eq_refl H); [left; now right|now right].
